@@ -368,6 +368,6 @@ pub fn run(ctx: &Ctx) {
         ctx.exhaustive("string_arrays", count(5, 5) * extra_n(5), move |i| arrays_nth(i, tp, 5, "strings"), oracle);
     }
     ctx.exhaustive("object_arrays", count(7, lo) * 3, move |i| objects_nth(i, lo), oracle);
-    ctx.random("long_arrays", ctx.pick(150_000, 1_000_000), long_arrays, oracle);
-    ctx.random("long_object_arrays", ctx.pick(40_000, 300_000), long_objects, oracle);
+    ctx.random("long_arrays", ctx.pick(150_000, 8_000_000), long_arrays, oracle);
+    ctx.random("long_object_arrays", ctx.pick(40_000, 2_500_000), long_objects, oracle);
 }
